@@ -105,11 +105,18 @@ variable {K : Type} [CommRing K] [GateFns K]
 @[simp] theorem Mat.add_r (A B : Mat K) : (add A B).r = A.r := rfl
 @[simp] theorem Mat.add_c (A B : Mat K) : (add A B).c = A.c := rfl
 
+theorem Mat.sumFrom_eq (f : Nat → K) (m k : Nat) (acc : K) :
+    sumFrom f m k acc = acc + ∑ j ∈ Finset.range m, f (k + j) := by
+  induction m generalizing k acc with
+  | zero => simp [sumFrom]
+  | succ m ih =>
+    rw [sumFrom, ih, Finset.sum_range_succ']
+    simp only [Nat.add_zero]
+    have : ∀ j, f (k + 1 + j) = f (k + (j + 1)) := fun j => by congr 1; omega
+    simp only [this]; ring
+
 theorem Mat.sumTo_eq_sum (n : Nat) (f : Nat → K) : sumTo n f = ∑ k ∈ Finset.range n, f k := by
-  unfold sumTo
-  induction n with
-  | zero => simp
-  | succ n ih => rw [List.range_succ, List.foldl_append, ih, Finset.sum_range_succ]; simp
+  unfold sumTo; rw [sumFrom_eq]; simp
 
 theorem Mat.get_eye {n i j : Nat} (hi : i < n) (hj : j < n) : (eye n : Mat K).get i j = if i = j then 1 else 0 :=
   get_build hi hj
